@@ -57,6 +57,8 @@ func VerifHarness_C10_CommitCrash() {
 	hPrev[0] = 7
 	full.SetLastBlockHash(hPrev)
 	full.SetLastHeight(41)
+	full.AddBlocksTime(time.Unix(1704000000, 0).UTC())
+	full.SaveBlocksTime()
 	full.SaveVersions()
 	full.SaveEmission()
 	full.SavePrice()
@@ -97,8 +99,14 @@ func VerifHarness_C10_CommitCrash() {
 			verifAssert("C10:reported-height-has-its-price", tt.Unix() == 1704090000)
 		}
 	}
+	sum, cnt := re.GetLastBlockTimeDelta()
 	if info.LastBlockHeight == 41 {
 		verifAssert("C10:replay-starts-from-previous-emission", re.Emission().Cmp(e0) == 0)
+		// block 42 will be replayed: its time must not be in the window yet
+		verifAssert("C10:replay-starts-from-previous-block-times", sum == 0 && cnt == 0)
+	}
+	if info.LastBlockHeight == 42 && isNew {
+		verifNote("times", uint64(sum), uint64(cnt))
 	}
 	_ = big.NewInt
 }
